@@ -850,7 +850,7 @@ theorem cv_step (N : Nat) (hD : CD c filter N) (hI : CI c filter N) : CV c filte
           cases stack with
           | nil =>
             left
-            refine ⟨rfl, ?_, fun id' k' hr => by rw [hri] at hr; cases hr; exact he⟩
+            refine ⟨rfl, ?_, fun id' k' hr => by cases hr; exact he⟩
             by_cases hcn : id.constructed = true
             · simp [hcn] at h
             · by_cases hz : len? = some 0
@@ -1081,5 +1081,267 @@ theorem converse_all : ∀ N, CV c filter N ∧ CD c filter N ∧ CI c filter N 
       ci_step c filter N hCV (fun N' h => (ih N' h).2.2)⟩
 
 end converse
+
+
+/-! ## The property: `skip_opt` on a `Constructed` -/
+
+theorem runFilter_acceptAll (l : List (Ident × Nat)) : runFilter acceptAll () l = some () := by
+  induction l with
+  | nil => rfl
+  | cons x l ih => obtain ⟨id, d⟩ := x; simp only [runFilter, acceptAll]; exact ih
+
+/-- `skip_opt` before it enters its loop -/
+theorem run_skipOpt (c : Cons) (filter : σ → Tag → Bool → Nat → Option σ) (st : σ) (N : Nat) (g : G0) :
+    runG0 (skipOpt c filter st N) g =
+      if c.state = .done then .ok ((none, c, st), g)
+      else if c.state = .definite ∧ g.limit = none then .error (.panic "is_exhausted: no limit")
+      else if c.state = .definite ∧ g.limit = some 0 then .ok ((none, c, st), g)
+      else runG0 (skipLoop c filter N [] st) g := by
+  unfold skipOpt
+  simp only [runG0_bind, run_isExhausted]
+  cases hs : c.state with
+  | done => simp
+  | indefinite => simp
+  | unbounded => simp
+  | definite =>
+    cases hl : g.limit with
+    | none => simp
+    | some l => cases l <;> simp
+
+/-- **Skipping walks over exactly the value the grammar sees.**  On any source without open capture
+    and any `Constructed` that has not ended: if the X.690 grammar of the mode finds a value `t` at
+    the current position, then `skip_opt` (with at least one unit of fuel per header of `t`) hands
+    the identifier (as tag and constructed flag) and depth of `t` and of every value nested in it
+    to the filter, in encoding order, threading the filter's state; it fails with a content error
+    if the filter rejects one of them, and otherwise returns `Some(())` with the `Constructed`
+    unchanged, the final filter state, and the source advanced exactly to the end of `t`. -/
+theorem skip_value (c : Cons) (filter : σ → Tag → Bool → Nat → Option σ) (st : σ) (g : G0)
+    (hf : g.frames = []) (h1 : c.state ≠ .done) (h2 : ¬ (c.state = .definite ∧ g.limit = none))
+    (f : Nat) (t : Tree) (rest : Bytes) (hp : parseValue (toM c.mode) f g.view = some (t, rest))
+    (N : Nat) (hN : hdrs t ≤ N) :
+    runG0 (skipOpt c filter st N) g =
+      thenK (runFilter filter st (preorder t 0))
+        (fun st' => .ok ((some (), c, st'), g.adv (g.view.length - rest.length))) := by
+  obtain ⟨id, k, hri, _⟩ := parseValue_ident _ _ _ _ hp
+  have hvne := view_nonempty_of_ident _ _ _ hri
+  have h3 : ¬ (c.state = .definite ∧ g.limit = some 0) := fun h => limit_ne_zero_of_view g hvne h.2
+  rw [run_skipOpt]
+  simp only [h1, h2, h3, if_false]
+  have hfuel : N = (N - hdrs t) + hdrs t := by omega
+  rw [hfuel, (success_all c filter f).1 [] st g (N - hdrs t) t rest hf hp]
+  rfl
+
+/-- **Converse.**  Whenever `skip_opt` returns `Some(())`, the grammar of the mode accepts a value at
+    the current position (with some fuel, i.e. nesting depth), the fuel sufficed for its headers,
+    the `Constructed` is unchanged, the source is exactly behind that value, and the filter state
+    is the fold of the filter over the value's trace. -/
+theorem skip_value_inv (c : Cons) (filter : σ → Tag → Bool → Nat → Option σ) (st : σ) (g : G0)
+    (hf : g.frames = []) (N : Nat) (c' : Cons) (st' : σ) (g' : G0)
+    (h : runG0 (skipOpt c filter st N) g = .ok ((some (), c', st'), g')) :
+    ∃ f t rest, parseValue (toM c.mode) f g.view = some (t, rest) ∧ hdrs t ≤ N ∧ c' = c ∧
+      g' = g.adv (g.view.length - rest.length) ∧ runFilter filter st (preorder t 0) = some st' ∧
+      c.state ≠ .done ∧ ¬ (c.state = .definite ∧ g.limit = none) := by
+  rw [run_skipOpt] at h
+  by_cases h1 : c.state = .done
+  · simp [h1] at h
+  · by_cases h2 : c.state = .definite ∧ g.limit = none
+    · simp [h2] at h
+    · by_cases h3 : c.state = .definite ∧ g.limit = some 0
+      · simp [h3] at h
+      · simp only [h1, h2, h3, if_false] at h
+        rcases (converse_all c filter N).1 [] st g _ g' hf h with ⟨_, hr, _⟩ | ⟨rest0, id, k, hs, _⟩ |
+          ⟨f, t, rest, st1, N1, hpv, hN, hfil, hrun⟩
+        · cases hr
+        · cases hs
+        · rw [run_afterK_nil] at hrun
+          simp only [Except.ok.injEq, Prod.mk.injEq] at hrun
+          obtain ⟨⟨_, hc, hst⟩, hg⟩ := hrun
+          exact ⟨f, t, rest, hpv, by omega, hc.symm, hg.symm, by rw [← hst]; exact hfil, h1, h2⟩
+
+/-- the two directions together: `skip_opt` returns `Some(())` exactly when the grammar accepts a
+    value here and the filter accepts its trace -/
+theorem skip_some_iff (c : Cons) (filter : σ → Tag → Bool → Nat → Option σ) (st : σ) (g : G0)
+    (hf : g.frames = []) (c' : Cons) (st' : σ) (g' : G0) :
+    (∃ N, runG0 (skipOpt c filter st N) g = .ok ((some (), c', st'), g')) ↔
+    (c.state ≠ .done ∧ ¬ (c.state = .definite ∧ g.limit = none) ∧
+      ∃ f t rest, parseValue (toM c.mode) f g.view = some (t, rest) ∧ c' = c ∧
+        g' = g.adv (g.view.length - rest.length) ∧ runFilter filter st (preorder t 0) = some st') := by
+  constructor
+  · rintro ⟨N, h⟩
+    obtain ⟨f, t, rest, hp, _, hc, hg, hfil, h1, h2⟩ := skip_value_inv c filter st g hf N c' st' g' h
+    exact ⟨h1, h2, f, t, rest, hp, hc, hg, hfil⟩
+  · rintro ⟨h1, h2, f, t, rest, hp, hc, hg, hfil⟩
+    refine ⟨hdrs t, ?_⟩
+    rw [skip_value c filter st g hf h1 h2 f t rest hp _ (Nat.le_refl _), hfil, hc, hg]
+    rfl
+
+
+/-! ### absence -/
+
+/-- where an optional read of the next value reports absence, and what it leaves behind: the
+    `Constructed` has ended (done / definite with limit 0 / top level with nothing in view), or it is
+    indefinite and the end-of-contents octets come next (they are consumed, the state becomes done) -/
+def absentF (c : Cons) (g : G0) : Option (Cons × G0) :=
+  if c.state = .done then some (c, g)
+  else if c.state = .definite ∧ g.limit = none then none
+  else if c.state = .definite ∧ g.limit = some 0 then some (c, g)
+  else if c.state = .unbounded ∧ g.view = [] then some (c, g)
+  else match headerF c.mode g with
+    | none => none
+    | some ((id, len?), g2) =>
+      if isEocIdent id = true ∧ c.state = .indefinite ∧ id.constructed = false ∧ len? = some 0 then
+        some ({ c with state := .done }, g2)
+      else none
+
+theorem bodyF_not_absent {α : Type} (c : Cons) (op : Tag → Content → Prog (α × Content)) (g2 : G0) (id : Ident)
+    (len? : Option Nat) (he : isEocIdent id = false) (c' : Cons) (g' : G0) :
+    bodyF c op g2 id len? ≠ .ok ((none, c'), g') := by
+  unfold bodyF
+  simp only [he, Bool.false_eq_true, if_false]
+  cases len? with
+  | some n =>
+    simp only
+    repeat' split
+    all_goals simp
+  | none =>
+    simp only
+    repeat' split
+    all_goals simp
+
+/-- the optional generic read (`process_next_value(None, op)`, any closure) reports absence exactly
+    as `absentF` says -/
+theorem pnv_absent_iff {α : Type} (c : Cons) (op : Tag → Content → Prog (α × Content)) (g : G0)
+    (c' : Cons) (g' : G0) :
+    pnvF c op g = .ok ((none, c'), g') ↔ absentF c g = some (c', g') := by
+  unfold pnvF absentF
+  by_cases h1 : c.state = .done
+  · simp only [h1, if_true, Except.ok.injEq, Prod.mk.injEq, Option.some.injEq, true_and]
+  · by_cases h2 : c.state = .definite ∧ g.limit = none
+    · simp [h1, h2]
+    · by_cases h3 : c.state = .definite ∧ g.limit = some 0
+      · simp only [h1, h2, h3, and_self, if_true, if_false, Except.ok.injEq, Prod.mk.injEq, Option.some.injEq,
+          true_and]
+      · by_cases h4 : c.state = .unbounded ∧ g.view = []
+        · simp only [h1, h2, h3, h4, and_self, if_true, if_false, Except.ok.injEq, Prod.mk.injEq,
+            Option.some.injEq, true_and]
+        · simp only [h1, h2, h3, h4, if_false]
+          cases hH : headerF c.mode g with
+          | none => simp
+          | some r =>
+            obtain ⟨⟨id, len?⟩, g2⟩ := r
+            simp only
+            by_cases he : isEocIdent id = true
+            · unfold bodyF
+              simp only [he, if_true, true_and]
+              by_cases hi : c.state = .indefinite
+              · by_cases hcn : id.constructed = true
+                · simp [hi, hcn]
+                · by_cases hz : len? = some 0
+                  · simp [hi, hcn, hz]
+                  · simp [hi, hcn, hz]
+              · simp [hi]
+            · have he' : isEocIdent id = false := by simpa using he
+              have := bodyF_not_absent c op g2 id len? he' c' g'
+              simp [this, he']
+
+theorem headerF_ident (m : Mode) (g : G0) (id : Ident) (len? : Option Nat) (g2 : G0)
+    (h : headerF m g = some ((id, len?), g2)) : ∃ k, readIdent g.view = some (id, k) := by
+  unfold headerF at h
+  cases hr : readIdent g.view with
+  | none => simp [hr] at h
+  | some r =>
+    obtain ⟨id', k⟩ := r
+    simp only [hr] at h
+    cases hl : readLen m.isBer (g.adv k).view with
+    | none => simp [hl] at h
+    | some r2 =>
+      obtain ⟨l2, kl⟩ := r2
+      simp only [hl, Option.some.injEq, Prod.mk.injEq] at h
+      exact ⟨k, by rw [h.1.1]⟩
+
+/-- **`skip_opt` reports absence exactly where an optional read would**, leaving the same
+    `Constructed` state and source, and without having called the filter -/
+theorem skip_absent_iff (c : Cons) (filter : σ → Tag → Bool → Nat → Option σ) (st : σ) (g : G0)
+    (hf : g.frames = []) (N : Nat) (hN : 1 ≤ N) (c' : Cons) (st' : σ) (g' : G0) :
+    runG0 (skipOpt c filter st N) g = .ok ((none, c', st'), g') ↔ (absentF c g = some (c', g') ∧ st' = st) := by
+  rw [run_skipOpt]
+  unfold absentF
+  by_cases h1 : c.state = .done
+  · simp only [h1, if_true, Except.ok.injEq, Prod.mk.injEq, Option.some.injEq, true_and]
+    constructor
+    · rintro ⟨⟨a, b⟩, d⟩; exact ⟨⟨a, d⟩, b.symm⟩
+    · rintro ⟨⟨a, d⟩, b⟩; exact ⟨⟨a, b.symm⟩, d⟩
+  · by_cases h2 : c.state = .definite ∧ g.limit = none
+    · simp [h1, h2]
+    · by_cases h3 : c.state = .definite ∧ g.limit = some 0
+      · simp only [h1, h2, h3, and_self, if_true, if_false, Except.ok.injEq, Prod.mk.injEq, Option.some.injEq,
+          true_and]
+        constructor
+        · rintro ⟨⟨a, b⟩, d⟩; exact ⟨⟨a, d⟩, b.symm⟩
+        · rintro ⟨⟨a, d⟩, b⟩; exact ⟨⟨a, b.symm⟩, d⟩
+      · simp only [h1, h2, h3, if_false]
+        obtain ⟨N0, rfl⟩ : ∃ N0, N = N0 + 1 := ⟨N - 1, by omega⟩
+        constructor
+        · intro h
+          rcases (converse_all c filter (N0 + 1)).1 [] st g _ g' hf h with ⟨_, _, hall⟩ | ⟨rest0, id, k, hs, _⟩ |
+            ⟨f, t, rest, st1, N1, hpv, hN, hfil, hrun⟩
+          · rw [skip_step _ _ _ _ _ _ hf] at h
+            unfold stepF at h
+            by_cases h4 : c.state = .unbounded ∧ g.view = []
+            · simp only [h4, and_self, if_true, Except.ok.injEq, Prod.mk.injEq, true_and] at h ⊢
+              obtain ⟨⟨a, b⟩, d⟩ := h
+              exact ⟨⟨a, d⟩, b.symm⟩
+            · simp only [h4, true_and, if_false] at h ⊢
+              cases hH : headerF c.mode g with
+              | none => simp [hH] at h
+              | some r =>
+                obtain ⟨⟨id, len?⟩, g2⟩ := r
+                obtain ⟨k, hri⟩ := headerF_ident _ _ _ _ _ hH
+                have he := hall id k hri
+                simp only [hH] at h ⊢
+                unfold sbodyF at h
+                simp only [he, if_true, true_and] at h ⊢
+                by_cases hcn : id.constructed = true
+                · simp [hcn] at h
+                · by_cases hz : len? = some 0
+                  · by_cases hi : c.state = .indefinite
+                    · simp [hcn, hz, hi] at h ⊢
+                      obtain ⟨⟨a, b⟩, d⟩ := h
+                      exact ⟨⟨a, d⟩, b.symm⟩
+                    · simp [hcn, hz, hi] at h
+                  · simp [hcn, hz] at h
+          · cases hs
+          · rw [run_afterK_nil] at hrun
+            simp at hrun
+        · rintro ⟨h, hst⟩
+          subst hst
+          rw [skip_step _ _ _ _ _ _ hf]
+          unfold stepF
+          by_cases h4 : c.state = .unbounded ∧ g.view = []
+          · simp only [h4, and_self, if_true, Option.some.injEq, Prod.mk.injEq] at h ⊢
+            rw [h.1, h.2]
+          · simp only [h4, true_and, if_false] at h ⊢
+            cases hH : headerF c.mode g with
+            | none => simp [hH] at h
+            | some r =>
+              obtain ⟨⟨id, len?⟩, g2⟩ := r
+              simp only [hH] at h ⊢
+              by_cases hcond : isEocIdent id = true ∧ c.state = .indefinite ∧ id.constructed = false ∧ len? = some 0
+              · simp only [hcond, and_self, if_true, Option.some.injEq, Prod.mk.injEq] at h
+                obtain ⟨he, hi, hcn, hz⟩ := hcond
+                unfold sbodyF
+                simp [he, hi, hcn, hz, h.1, h.2]
+              · simp [hcond] at h
+
+/-- corollary in terms of the model's reader: absence from `skip_opt` ⇔ absence from the optional
+    generic read `take_opt_value`, whatever its closure; same resulting state and source -/
+theorem skip_absent_iff_read {α : Type} (c : Cons) (filter : σ → Tag → Bool → Nat → Option σ) (st : σ) (g : G0)
+    (hf : g.frames = []) (N : Nat) (hN : 1 ≤ N) (op : Tag → Content → Prog (α × Content))
+    (c' : Cons) (g' : G0) :
+    runG0 (skipOpt c filter st N) g = .ok ((none, c', st), g') ↔
+      runG0 (takeOptValue c op) g = .ok ((none, c'), g') := by
+  unfold takeOptValue
+  rw [pnv_eq c op g hf, pnv_absent_iff, skip_absent_iff c filter st g hf N hN]
+  simp
 
 end Bcder.Props.C10
